@@ -47,16 +47,16 @@ theorem mapM_ok_mem {α β : Type} (f : α → Except Err β) :
         · obtain ⟨b', hb', hm⟩ := ih bs hxs a ha'
           exact ⟨b', hb', by simp [hm]⟩
 
-theorem item_evs_mem_body (e : BEnv) (Γ : Ctx) (cfg : SerCfg) {m : XmlMeta} (ns : Option Str)
+theorem item_evs_mem_body (e : BEnv) (Γ : Ctx) (cfg : SerCfg) (ns : Option Str)
     (chunks : List (XmlVar × Val)) (f : Nat) {body : List (List Ev)}
     (hb : chunks.mapM (genField e Γ cfg (f + 1) ns) = .ok body)
-    {c : XmlVar × Val} (hc : c ∈ chunks) (hf : ElemFactsN m c.1) (hs : Shape c.1 c.2)
+    {c : XmlVar × Val} (hc : c ∈ chunks) (hf : ChunkEq e Γ cfg c.1) (hs : Shape c.1 c.2)
     (hx : c.2 ≠ .none ∨ c.1.nillable = true) {y : Val} (hy : y ∈ itemsN c.1 c.2) {evs : List Ev}
     (hg : itemGen e Γ cfg c.1 ns (chunkFuel c.2 f) y = .ok evs) : ∀ ev ∈ evs, ev ∈ body.flatten := by
   intro ev hev
   obtain ⟨b, hgb, hbm⟩ := mapM_ok_mem _ _ _ hb c hc
   have hin : ev ∈ b := by
-    simp only [genField, genValue_chunk e Γ cfg hf hs hx ns f] at hgb
+    simp only [genField, hf _ hs hx ns f] at hgb
     cases hparts : (itemsN c.1 c.2).mapM (itemGen e Γ cfg c.1 ns (chunkFuel c.2 f)) with
     | error err => simp [hparts, bind, Except.bind, Except.map] at hgb
     | ok parts =>
@@ -194,6 +194,45 @@ theorem genField_textN (e : BEnv) (Γ : Ctx) (cfg : SerCfg) (f : Nat) (ns : Opti
     genField e Γ cfg (f + 1) ns (tv, x) = .ok [Ev.data d] := by
   simp [genField, genValue, hmixed, htext, hwrap, hd, bind, Except.bind, pure, Except.pure]
 
+theorem bindVar_has_ne (P : Params) (var : XmlVar) (y : Val) {k : Str} (h : k ≠ var.name) :
+    ((bindVar P var y).2).has k = P.has k := by
+  have hs : ∀ v, (P.set var.name v).has k = P.has k := by
+    intro v; rw [Params.has_eq_isSome, Params.has_eq_isSome, Params.get_set_ne _ _ h]
+  unfold bindVar
+  split
+  · split
+    · split <;> simp [hs]
+    · split <;> simp [hs]
+  · rfl
+
+/-- `bind_var` meets every non-list var unbound: it is met once, and the names are distinct -/
+theorem FreshOK_of {vars : List XmlVar} (hnd : (vars.map (·.name)).Nodup) :
+    ∀ (E : List (XmlVar × Val)) (asg : List Nat) (P : Params), (∀ en ∈ E, en.1 ∈ vars) →
+    AssignedOK asg E →
+    (∀ v ∈ vars, v.listElement = false → v.index ∉ asg → P.has v.name = false) → FreshOK P E := by
+  intro E
+  induction E with
+  | nil => intros; trivial
+  | cons en r ih =>
+    intro asg P hmem hasg hinv
+    obtain ⟨var, y⟩ := en
+    have hv : var ∈ vars := hmem (var, y) (by simp)
+    by_cases hl : var.listElement = true
+    · simp only [AssignedOK, hl, if_true] at hasg
+      refine ⟨Or.inl hl, ih asg _ (fun en he => hmem en (by simp [he])) hasg ?_⟩
+      intro v hvv hvl hva
+      by_cases hn : v.name = var.name
+      · have := eq_of_nodup_name hnd hvv hv hn; subst this; rw [hl] at hvl; cases hvl
+      · rw [bindVar_has_ne P var y hn]; exact hinv v hvv hvl hva
+    · have hl' : var.listElement = false := by simpa using hl
+      simp only [AssignedOK, hl', Bool.false_eq_true, if_false] at hasg
+      refine ⟨Or.inr (Or.inr (hinv var hv hl' hasg.1)),
+        ih (var.index :: asg) _ (fun en he => hmem en (by simp [he])) hasg.2 ?_⟩
+      intro v hvv hvl hva
+      by_cases hn : v.name = var.name
+      · have := eq_of_nodup_name hnd hvv hv hn; subst this; simp at hva
+      · rw [bindVar_has_ne P var y hn]; exact hinv v hvv hvl (fun h => hva (by simp [h]))
+
 /-- the induction step -/
 theorem main_stepN (ft : Feat) (e : BEnv) (Γ : Ctx) (cfg : SerCfg) (pcfg : ParserConfig) (M : NsMap)
     (hΓ : ctxOK ft Γ = true) (n : Nat) (IH : MainStmtN ft e Γ cfg pcfg M n) :
@@ -307,6 +346,12 @@ theorem main_stepN (ft : Feat) (e : BEnv) (Γ : Ctx) (cfg : SerCfg) (pcfg : Pars
       dsimp only
       simp only [htext] at hbody
       have hTX := hbody
+      have hW0 : mp.wildcards = [] := by
+        rcases MF.wild with h | ⟨wv, _, hok⟩
+        · exact h
+        · exfalso
+          simp only [wildVarOK, Bool.and_eq_true, Option.isNone_iff_eq_none] at hok
+          rw [hok.1.2] at htext; cases htext
       obtain ⟨hEV, hTV⟩ : mp.elementVars = [tv] ∧ FN.textVarOK ft ci tv = true := by
         simpa [htext] using MF.body
       simp only [FN.textVarOK, FN.varBase, Bool.and_eq_true, Bool.not_eq_true',
@@ -380,8 +425,8 @@ theorem main_stepN (ft : Feat) (e : BEnv) (Γ : Ctx) (cfg : SerCfg) (pcfg : Pars
                 bind, Except.bind, pure, Except.pure]⟩
           obtain ⟨bt, hT⟩ := hT
           have hparse := parseNode_element_N e Γ pcfg mp q _ M _ [] [] {} _ _ bt (.obj cls fields)
-            MF.choices MF.wild (fun h => by rw [hxnA] at h; cases h) hK (fun _ h => by cases h)
-            hWs0 hBindA0 hT hF
+            MF.choices (Or.inl hW0) (fun h => by rw [hxnA] at h; cases h) hK (fun _ h => by cases h)
+            hWs0 trivial hBindA0 hT hF
           have hsubw := SubW_elem_dataN (M := M) (isDt := isDatatype Γ) q
             (attrEvsT cfg mp.attributeVars fields xt ++ nilEvs mp.nillable)
             (attrPairsT cfg M mp.attributeVars fields xt) mp.nillable (.prim (.str (serPrim p)))
@@ -476,13 +521,13 @@ theorem main_stepN (ft : Feat) (e : BEnv) (Γ : Ctx) (cfg : SerCfg) (pcfg : Pars
                 (Or.inr ⟨hPAtv, by rw [hlook]; exact hdef⟩)
               have hparse := parseNode_element_N e Γ pcfg mp q
                 (attrPairsT cfg M mp.attributeVars fields xt ++ nilAttr mp.nillable) M
-                none [] [] {} _ _ false (.obj cls fields) MF.choices MF.wild
+                none [] [] {} _ _ false (.obj cls fields) MF.choices (Or.inl hW0)
                 (fun h => by
                   rw [hxn] at h
                   cases hN : mp.nillable with
                   | false => simp [hN] at h
                   | true => rfl)
-                hK (fun _ h => by cases h) hWs0 (hBindA _) hT hF
+                hK (fun _ h => by cases h) hWs0 trivial (hBindA _) hT hF
               have hsubw := SubW_elem_dataN (M := M) (isDt := isDatatype Γ) q
                 (attrEvsT cfg mp.attributeVars fields xt ++ nilEvs mp.nillable)
                 (attrPairsT cfg M mp.attributeVars fields xt) mp.nillable (tokData []) none rfl
@@ -516,8 +561,8 @@ theorem main_stepN (ft : Feat) (e : BEnv) (Γ : Ctx) (cfg : SerCfg) (pcfg : Pars
                   exact hPA var hv)
                 (Or.inl (by rw [Params.get_set_self, hlook]))
               have hparse := parseNode_element_N e Γ pcfg mp q (attrPairsT cfg M mp.attributeVars fields xt) M
-                (some (joinTok (a :: l))) [] [] {} _ _ true (.obj cls fields) MF.choices MF.wild
-                (fun h => by rw [hxnA] at h; cases h) hK (fun _ h => by cases h) hWs0 hBindA0 hT hF
+                (some (joinTok (a :: l))) [] [] {} _ _ true (.obj cls fields) MF.choices (Or.inl hW0)
+                (fun h => by rw [hxnA] at h; cases h) hK (fun _ h => by cases h) hWs0 trivial hBindA0 hT hF
               have hsubw := SubW_elem_dataN (M := M) (isDt := isDatatype Γ) q
                 (attrEvsT cfg mp.attributeVars fields xt ++ nilEvs mp.nillable)
                 (attrPairsT cfg M mp.attributeVars fields xt) mp.nillable (tokData (a :: l)) _
@@ -571,13 +616,13 @@ theorem main_stepN (ft : Feat) (e : BEnv) (Γ : Ctx) (cfg : SerCfg) (pcfg : Pars
                   exact hFgen _ hPA (Or.inr ⟨hPAtv, by rw [hlook, hdn]⟩)
               have hparse := parseNode_element_N e Γ pcfg mp q
                 (attrPairsT cfg M mp.attributeVars fields xt ++ nilAttr mp.nillable) M none [] [] {} _ _ _
-                (.obj cls fields) MF.choices MF.wild
+                (.obj cls fields) MF.choices (Or.inl hW0)
                 (fun h => by
                   rw [hxn] at h
                   cases hN : mp.nillable with
                   | false => simp [hN] at h
                   | true => rfl)
-                hK (fun _ h => by cases h) hWs0 (hBindA _) hT hF
+                hK (fun _ h => by cases h) hWs0 trivial (hBindA _) hT hF
               have hsubw := SubW_elemN (M := M) (isDt := isDatatype Γ) q
                 (attrEvsT cfg mp.attributeVars fields xt ++ nilEvs mp.nillable)
                 (attrPairsT cfg M mp.attributeVars fields xt) mp.nillable [] []
@@ -621,8 +666,8 @@ theorem main_stepN (ft : Feat) (e : BEnv) (Γ : Ctx) (cfg : SerCfg) (pcfg : Pars
                       rw [hf0] at hf''; cases hf''
                       exact Or.inr ⟨hPAtv, by rw [hlook, hdn, hp]⟩)
                   exact parseNode_element_N e Γ pcfg mp q _ M _ [] [] {} _ _ false (.obj cls fields)
-                    MF.choices MF.wild (fun h => by rw [hxnA] at h; cases h) hK (fun _ h => by cases h)
-                    hWs0 hBindA0 hT hF xtN
+                    MF.choices (Or.inl hW0) (fun h => by rw [hxnA] at h; cases h) hK (fun _ h => by cases h)
+                    hWs0 trivial hBindA0 hT hF xtN
                 · have hpv := parseVar_serPrim e pcfg tv.toVarCore p t M htok' hty hpt'
                   have hT : bindText e pcfg mp (xsiNilOf (attrPairsT cfg M mp.attributeVars fields xt)) M
                       (bindEntries (attrParamsN cfg mp.attributeVars fields) []) (optText (serPrim p)) =
@@ -635,8 +680,8 @@ theorem main_stepN (ft : Feat) (e : BEnv) (Γ : Ctx) (cfg : SerCfg) (pcfg : Pars
                       exact hPA var hv)
                     (Or.inl (by rw [Params.get_set_self, hlook]))
                   exact parseNode_element_N e Γ pcfg mp q _ M _ [] [] {} _ _ true (.obj cls fields)
-                    MF.choices MF.wild (fun h => by rw [hxnA] at h; cases h) hK (fun _ h => by cases h)
-                    hWs0 hBindA0 hT hF xtN
+                    MF.choices (Or.inl hW0) (fun h => by rw [hxnA] at h; cases h) hK (fun _ h => by cases h)
+                    hWs0 trivial hBindA0 hT hF xtN
               have hsubw := SubW_elem_dataN (M := M) (isDt := isDatatype Γ) q
                 (attrEvsT cfg mp.attributeVars fields xt ++ nilEvs mp.nillable)
                 (attrPairsT cfg M mp.attributeVars fields xt) mp.nillable (.prim (.str (serPrim p)))
@@ -655,11 +700,45 @@ theorem main_stepN (ft : Feat) (e : BEnv) (Γ : Ctx) (cfg : SerCfg) (pcfg : Pars
       dsimp only
       simp only [htext, List.all_eq_true] at hbody
       have hbodyE := hbody
-      have hEall : ∀ var ∈ mp.elementVars, FN.elemVarOK ft Γ mp ci var = true := by
-        simpa [htext] using MF.body
-      have hEF := fun var hv => elemFactsN_of MF hv (hEall var hv)
+      have hEW : ∀ var ∈ mp.elementVars,
+          (ElemFactsN mp var ∧ ElemKindN ft Γ mp var ∧ fieldAgreesN ci var = true ∧
+            (var.nillable = true → ft.nillable = true) ∧ (var.init = true ∨ fixedOK var = true)) ∨
+          (WildFactsN mp var ∧ fieldAgreesN ci var = true) := by
+        intro var hv
+        rcases elemOrWild MF htext hv with h | h
+        · exact Or.inl (elemFactsN_of MF hv h)
+        · exact Or.inr h
+      have hFA : ∀ var ∈ mp.elementVars, fieldAgreesN ci var = true := by
+        intro var hv
+        rcases hEW var hv with h | h
+        · exact h.2.2.1
+        · exact h.2
+      have hCE : ∀ var ∈ mp.elementVars, ChunkEq e Γ cfg var := by
+        intro var hv
+        rcases hEW var hv with h | h
+        · exact chunkEq_elem e Γ cfg h.1
+        · exact chunkEq_wild e Γ cfg h.1.isWild h.1.mixed h.1.tokens h.1.list
+      have hWr : ∀ var ∈ mp.elementVars, ∀ w, var.wrapperQName = some w →
+          mp.wrappers.any (·.1 = w) = true := by
+        intro var hv w hw
+        rcases hEW var hv with h | h
+        · exact h.1.wrapOK w hw
+        · rw [h.1.wrapper] at hw; cases hw
+      have hEK : ∀ var ∈ mp.elementVars, ∀ y ∈ itemsN var (look fields var.name), EntryK mp var y := by
+        intro var hv y hy
+        rcases hEW var hv with h | h
+        · exact Or.inl h.1
+        · obtain ⟨xs, _, hitems, hall⟩ := wild_items h.1 (hbodyE var hv)
+          rw [hitems] at hy
+          obtain ⟨q', t, a, kids, rfl, _⟩ := wildItemOK_any (hall y hy)
+          exact Or.inr ⟨h.1, _, _, _, _, _, rfl⟩
+      have hWild : mp.wildcards = [] ∨
+          ((none : Option Str) = none ∧ ∃ wv, mp.wildcards = [wv] ∧ wv.mixed = false) := by
+        rcases MF.wild with h | ⟨wv, h, hok⟩
+        · exact Or.inl h
+        · exact Or.inr ⟨rfl, wv, h, (wildFactsN_of MF h hok).1.mixed⟩
       have hin : ∀ var ∈ mp.elementVars, var.name ∈ fields.map (·.1) := fun var hv => by
-        obtain ⟨f', hf', _, _⟩ := fieldAgreesN_iff.1 (hEF var hv).2.2.1
+        obtain ⟨f', hf', _, _⟩ := fieldAgreesN_iff.1 (hFA var hv)
         rw [hnames]; exact mem_names_of_find hf'
       obtain ⟨f', rfl⟩ : ∃ f', f = f' + 1 := ⟨f - 1, by omega⟩
       -- per var: generator, writer and parser of its items
@@ -667,23 +746,27 @@ theorem main_stepN (ft : Feat) (e : BEnv) (Γ : Ctx) (cfg : SerCfg) (pcfg : Pars
           VarBundleG e Γ cfg pcfg M mp ci (targetUri mp.qname) (itemRec Γ cfg M n (targetUri mp.qname)) f' var
             (look fields var.name) := by
         intro var hv
-        obtain ⟨hf, hk, _, _, hinitV⟩ := hEF var hv
         have hsz := size_le_sizeFields (look_mem (hin var hv))
         simp only at hsz
-        cases hk with
-        | prim t hc hp ht hd =>
-          exact (prim_bundle e Γ cfg pcfg M _ _ hf MF.wild hc hp ht hd hinitV _ (hbodyE var hv) f'
-            (by omega)).toG
-        | cls c' m' hc htk ht hd hm =>
-          have hinitC : var.init = true := by
-            rcases hinitV with h | h
-            · exact h
-            · simp [FN.fixedOK, hc] at h
-          exact cls_bundle ft e Γ cfg pcfg M n hΓ IH hf hc htk ht hd hm hinitC (hbodyE var hv) f'
-            (by omega)
+        rcases hEW var hv with ⟨hf, hk, _, _, hinitV⟩ | ⟨hwf, _⟩
+        · cases hk with
+          | prim t hc hp ht hd =>
+            exact (prim_bundle e Γ cfg pcfg M _ _ hf (mixedContent_false MF) hc hp ht hd hinitV _
+              (hbodyE var hv) f' (by omega)).toG hf MF.choices
+          | cls c' m' hc htk ht hd hm =>
+            have hinitC : var.init = true := by
+              rcases hinitV with h | h
+              · exact h
+              · simp [FN.fixedOK, hc] at h
+            exact cls_bundle ft e Γ cfg pcfg M n hΓ IH hf MF.choices hc htk ht hd hm hinitC (hbodyE var hv) f'
+              (by omega)
+        · exact wild_bundle e Γ cfg pcfg M _ _ hwf (hbodyE var hv) f' (by omega)
       -- `next_value`
       have hVS : ∀ var ∈ mp.elementVars, VarSeq fields var := fun var hv =>
-        ⟨hin var hv, (hB var hv).shape, items_nones (hEF var hv).2.1 (hbodyE var hv)⟩
+        ⟨hin var hv, (hB var hv).shape, by
+          rcases hEW var hv with h | h
+          · exact items_nones h.2.1 (by simp [VarCore.isWildcard, h.1.isElem]) (hbodyE var hv)
+          · exact items_nones_wild h.1 (hbodyE var hv)⟩
       obtain ⟨R, hNVe, hspec⟩ := nextValue_spec mp fields hVS hEnames MF.seqOK
       have hvalsN : valsN mp fields = R := by simp [valsN, hNVe]
       have hitemOf : ∀ c ∈ R, ∀ y ∈ itemsN c.1 c.2, y ∈ itemsN c.1 (look fields c.1.name) := by
@@ -704,7 +787,7 @@ theorem main_stepN (ft : Feat) (e : BEnv) (Γ : Ctx) (cfg : SerCfg) (pcfg : Pars
         (itemRec Γ cfg M n (targetUri mp.qname)) (m := mp) R f'
         (fun c hc => by
           obtain ⟨hv, hs, hem, harr⟩ := hspec.1 c hc
-          refine ⟨(hEF _ hv).1, hs, hem, fun y hy => ?_⟩
+          refine ⟨hCE _ hv, hs, hem, fun y hy => ?_⟩
           obtain ⟨⟨evs, hg, hsw, _⟩, _⟩ := (hB _ hv).items y (hitemOf c hc y hy) _ (hfuelOf c hc)
           exact ⟨evs, hg, hsw⟩)
       -- emptiness of the content on both sides
@@ -721,15 +804,15 @@ theorem main_stepN (ft : Feat) (e : BEnv) (Γ : Ctx) (cfg : SerCfg) (pcfg : Pars
             exact absurd (treesSax_eq_nil this) (by simp)
           | cons _ _ => rfl
       -- the entries
-      have hentry : ∀ en ∈ R.flatMap chunkEntries, ElemFactsN mp en.1 := by
+      have hentry : ∀ en ∈ R.flatMap chunkEntries, EntryK mp en.1 en.2 := by
         intro en hen
         obtain ⟨hv, hy⟩ := mem_entries hspec hEnames hen
-        exact (hEF _ hv).1
+        exact hEK _ hv _ hy
       -- the parser side of the items, once the prefix map serves the `xsi:type`s of the whole element
       have hitemP : TypesGood e M ([Ev.start q] ++
             (attrEvsT cfg mp.attributeVars fields xt ++ nilEvs mp.nillable) ++ body.flatten ++ [Ev.end q]) →
           ∀ c ∈ R, ∀ en ∈ chunkEntries c,
-            ItemP e Γ pcfg M mp en.1 en.2 (itemTreeNN M (itemRec Γ cfg M n (targetUri mp.qname)) en.1 en.2) := by
+            ItemK e Γ pcfg M mp en.1 en.2 (itemTreeNN M (itemRec Γ cfg M n (targetUri mp.qname)) en.1 en.2) := by
         intro hgood c hc en hen
         simp only [chunkEntries, List.mem_map] at hen
         obtain ⟨y, hy, rfl⟩ := hen
@@ -738,7 +821,7 @@ theorem main_stepN (ft : Feat) (e : BEnv) (Γ : Ctx) (cfg : SerCfg) (pcfg : Pars
         apply hI
         apply hgood.mono
         intro ev hev
-        have := item_evs_mem_body e Γ cfg (targetUri mp.qname) R f' hbodyEq hc (hEF _ hv).1 hs hem hy hg ev hev
+        have := item_evs_mem_body e Γ cfg (targetUri mp.qname) R f' hbodyEq hc (hCE _ hv) hs hem hy hg ev hev
         simp [this]
       have hplainK : plainList M (R.flatMap fun c =>
           chunkTrees M (itemTreeNN M (itemRec Γ cfg M n (targetUri mp.qname)) c.1) c.1 c.2) = true := by
@@ -748,9 +831,18 @@ theorem main_stepN (ft : Feat) (e : BEnv) (Γ : Ctx) (cfg : SerCfg) (pcfg : Pars
         exact (plainList_iff M _).1 (plain_chunkTrees (fun y hy =>
           ((hB _ (hspec.1 c hc).1).items y (hitemOf c hc y hy) _ (Or.inl rfl)).2)) t htc
       -- the parser
-      have hK' := fun hgood => parseKids_chunks e Γ pcfg M MF.choices MF.wild
+      have hAsg := AssignedOK_spec hspec hEnames MF.idxNodup (fun var hv => (hB var hv).short)
+      have hFr : FreshOK (attrParamsN cfg mp.attributeVars fields) (R.flatMap chunkEntries) := by
+        apply FreshOK_of hEnames _ [] _ (fun en hen => (mem_entries hspec hEnames hen).1) hAsg
+        intro v hv _ _
+        rw [Params.has_eq_isSome, attrParamsN_get_none]
+        · rfl
+        · intro hmem
+          obtain ⟨a, ha, han⟩ := List.mem_map.1 hmem
+          exact hAE a ha v hv han
+      have hK' := fun hgood => parseKids_chunks e Γ pcfg M
         (fun en => itemTreeNN M (itemRec Γ cfg M n (targetUri mp.qname)) en.1 en.2) R {}
-        (fun c hc => ⟨(hEF _ (hspec.1 c hc).1).1, fun en hen => hitemP hgood c hc en hen⟩)
+        (fun c hc => ⟨hWr _ (hspec.1 c hc).1, fun en hen => hitemP hgood c hc en hen⟩)
         (AssignedOK_spec hspec hEnames MF.idxNodup (fun var hv => (hB var hv).short))
       have hWs : WsOK (stAfterChunks {} R).wrappers (R.flatMap chunkEntries) := by
         apply WsOK_of_queues
@@ -776,7 +868,7 @@ theorem main_stepN (ft : Feat) (e : BEnv) (Γ : Ctx) (cfg : SerCfg) (pcfg : Pars
             exact hAE w hw en.1 (mem_entries hspec hEnames hen).1 hk.symm
           rw [get_bindEntries, hnone]
           exact hPA w hw
-        · apply elem_field_okN (hEF var hvE).2.2.1 MF.fieldNodup hfi hname _ (hB var hvE).param
+        · apply elem_field_okN (hFA var hvE) MF.fieldNodup hfi hname _ (hB var hvE).param
           rw [get_bindEntries, entries_of_var hspec hEnames hvE, attrParamsN_get_none,
             foldl_accVar]
           intro hmem
@@ -802,13 +894,13 @@ theorem main_stepN (ft : Feat) (e : BEnv) (Γ : Ctx) (cfg : SerCfg) (pcfg : Pars
           hAkeys mp.nillable
         have hparse := fun hgood => parseNode_element_N e Γ pcfg mp q
           (attrPairsT cfg M mp.attributeVars fields xt ++ nilAttr mp.nillable) M none kids _ _ _ _
-          false (.obj cls fields) MF.choices MF.wild
+          false (.obj cls fields) MF.choices hWild
           (fun h => by
             rw [hxn] at h
             cases hN : mp.nillable with
             | false => simp [hN] at h
             | true => rfl)
-          (hK' hgood) hentry hWs (hBindA _) (hT _) hF
+          (hK' hgood) hentry hWs hFr (hBindA _) (hT _) hF
         refine ⟨[Ev.start q] ++ (attrEvsT cfg mp.attributeVars fields xt ++ nilEvs mp.nillable) ++
             body.flatten ++ [Ev.end q],
           attrPairsT cfg M mp.attributeVars fields xt ++ nilAttr mp.nillable, none, kids, ?_,
@@ -828,9 +920,9 @@ theorem main_stepN (ft : Feat) (e : BEnv) (Γ : Ctx) (cfg : SerCfg) (pcfg : Pars
             hAkeys false
         have hparse := fun hgood => parseNode_element_N e Γ pcfg mp q
           (attrPairsT cfg M mp.attributeVars fields xt) M none kids _ _ _ _
-          false (.obj cls fields) MF.choices MF.wild
+          false (.obj cls fields) MF.choices hWild
           (fun h => by rw [hxn] at h; cases h)
-          (hK' hgood) hentry hWs (by simpa [nilAttr] using hBindA false) (hT _) hF
+          (hK' hgood) hentry hWs hFr (by simpa [nilAttr] using hBindA false) (hT _) hF
         refine ⟨[Ev.start q] ++ (attrEvsT cfg mp.attributeVars fields xt ++ nilEvs mp.nillable) ++
             body.flatten ++ [Ev.end q], attrPairsT cfg M mp.attributeVars fields xt, none, kids, ?_,
           by simp, ?_, ?_,
